@@ -92,11 +92,39 @@ theorem oversize_always_rejected (p : EncParam) (hd : (fp p).Dom)
     omega
   · omega
 
-/-- **decode_encode.** If Encode succeeds (supported protocol id), then after the caller has set the
-    total-length field to header + payload − 4, for every payload: Decode of frame ++ payload succeeds
-    with exactly the same flags, sequence id and protocol id, maps that answer every lookup like the
-    parameter's maps (nil ≃ empty), HeaderLen = number of bytes Encode wrote = number of bytes Decode
-    consumed, and PayloadLen = the payload's length. -/
+/-- **decode_encode (any total).** If Encode succeeds (supported protocol id), then after the caller's
+    `PutUint32(totalLenField, uint32(header + payload − 4))`, for every payload: Decode of frame ++ payload
+    succeeds with exactly the same flags, sequence id and protocol id, maps that answer every lookup like the
+    parameter's maps (nil ≃ empty), HeaderLen = number of bytes Encode wrote = number of bytes Decode consumed,
+    and PayloadLen = (total-length field) + 4 − HeaderLen, where the field holds the total modulo 2^32
+    (the field is a uint32; the caller truncates). -/
+theorem decode_encode_anytotal (p : EncParam) (w : W) (hb : w.broken = false) (hd : (fp p).Dom)
+    (hsup : p.proto ∈ supported) (hs : infoSize (fp p) ≤ 65536) (payload : Bytes) (cap : Nat)
+    (hcap : 14 + infoSize (fp p) + payload.length ≤ cap) :
+    ∃ w' w'' frame d, encode p w = .ok (w.n, w') ∧
+      setTotalLen w' w.n (14 + infoSize (fp p) + payload.length - 4) = .ok w'' ∧
+      w''.bytes = w.bytes ++ frame ∧ frame.length = 14 + infoSize (fp p) ∧
+      decodeBytes (frame ++ payload) cap = (.ok d, frame.length) ∧
+      d.flags = p.flags ∧ d.seq = p.seq ∧ d.proto = p.proto ∧
+      (∀ k, (mk d.intKV).lookup k = p.intKV.lookup k) ∧ (∀ k, (mk d.strKV).lookup k = p.strKV.lookup k) ∧
+      d.headerLen = (frame.length : Int) ∧
+      d.payloadLen = (((14 + infoSize (fp p) + payload.length - 4) % 4294967296 : Nat) : Int) + 4
+                       - (frame.length : Int) := by
+  obtain ⟨_, h2⟩ := encode_layout_lemma p w hb hd (by omega)
+  obtain ⟨L, e, hbytes⟩ := h2 hs
+  obtain ⟨w'', e2, hb2⟩ := setTotalLen_layout p w L (14 + infoSize (fp p) + payload.length - 4) hd hs hbytes
+  have hlf : (be32 ((14 + infoSize (fp p) + payload.length - 4) % 4294967296)).length = 4 := by simp
+  have hfl := layout_length (be32 ((14 + infoSize (fp p) + payload.length - 4) % 4294967296)) (fp p) hlf
+  obtain ⟨d, hdec, f1, f2, f3, f4, f5, f6, f7⟩ := decode_layout p _ payload cap hlf hd hsup hs
+    (by rw [List.length_append, hfl]; exact hcap)
+  refine ⟨_, w'', _, d, e, e2, hb2, hfl, hdec, f1, f2, f3, f4, f5, f6, ?_⟩
+  have hrd := rd32_be32 ((14 + infoSize (fp p) + payload.length - 4) % 4294967296)
+    (Nat.mod_lt _ (by decide)) []
+  rw [List.append_nil] at hrd
+  rw [f7, hrd]
+
+/-- **decode_encode.** … and when header + payload − 4 fits the uint32 field: PayloadLen = the payload's
+    length, so the payload is delimited exactly. -/
 theorem decode_encode (p : EncParam) (w : W) (hb : w.broken = false) (hd : (fp p).Dom)
     (hsup : p.proto ∈ supported) (hs : infoSize (fp p) ≤ 65536) (payload : Bytes)
     (htot : 14 + infoSize (fp p) + payload.length - 4 < 4294967296) (cap : Nat)
@@ -108,20 +136,136 @@ theorem decode_encode (p : EncParam) (w : W) (hb : w.broken = false) (hd : (fp p
       d.flags = p.flags ∧ d.seq = p.seq ∧ d.proto = p.proto ∧
       (∀ k, (mk d.intKV).lookup k = p.intKV.lookup k) ∧ (∀ k, (mk d.strKV).lookup k = p.strKV.lookup k) ∧
       d.headerLen = (frame.length : Int) ∧ d.payloadLen = (payload.length : Int) := by
+  obtain ⟨w', w'', frame, d, h1, h2, h3, h4, h5, f1, f2, f3, f4, f5, f6, f7⟩ :=
+    decode_encode_anytotal p w hb hd hsup hs payload cap hcap
+  refine ⟨w', w'', frame, d, h1, h2, h3, h4, h5, f1, f2, f3, f4, f5, f6, ?_⟩
+  rw [f7, h4, Nat.mod_eq_of_lt htot]
+  have : 2 ≤ infoSize (fp p) := by
+    unfold infoSize; rw [info_struct]; simp only [List.length_cons]; omega
+  omega
+
+/-- **Encode does not check the protocol id; Decode does.** For a protocol id outside the allow-list Encode
+    succeeds with the documented layout like for any other id, and Decode of that frame returns the
+    "unsupported ProtocolID" error after consuming the header. (C06 quantifies over *supported* protocol
+    ids; this is the behaviour of the code on the others.) -/
+theorem encode_ok_decode_rejects_proto (p : EncParam) (w : W) (hb : w.broken = false) (hd : (fp p).Dom)
+    (hsup : p.proto ∉ supported) (hs : infoSize (fp p) ≤ 65536) (payload : Bytes) (cap : Nat)
+    (hcap : 14 + infoSize (fp p) + payload.length ≤ cap) :
+    ∃ w' w'' frame, encode p w = .ok (w.n, w') ∧
+      setTotalLen w' w.n (14 + infoSize (fp p) + payload.length - 4) = .ok w'' ∧
+      w''.bytes = w.bytes ++ frame ∧ frame.length = 14 + infoSize (fp p) ∧
+      decodeBytes (frame ++ payload) cap = (.err .protocol, frame.length) := by
   obtain ⟨_, h2⟩ := encode_layout_lemma p w hb hd (by omega)
   obtain ⟨L, e, hbytes⟩ := h2 hs
   obtain ⟨w'', e2, hb2⟩ := setTotalLen_layout p w L (14 + infoSize (fp p) + payload.length - 4) hd hs hbytes
-  rw [Nat.mod_eq_of_lt htot] at hb2
-  have hlf : (be32 (14 + infoSize (fp p) + payload.length - 4)).length = 4 := by simp
-  have hfl := layout_length (be32 (14 + infoSize (fp p) + payload.length - 4)) (fp p) hlf
-  obtain ⟨d, hdec, f1, f2, f3, f4, f5, f6, f7⟩ := decode_layout p _ payload cap hlf hd hsup hs
-    (by rw [List.length_append, hfl]; exact hcap)
-  refine ⟨_, w'', _, d, e, e2, hb2, hfl, hdec, f1, f2, f3, f4, f5, f6, ?_⟩
-  have hrd := rd32_be32 _ htot []
-  rw [List.append_nil] at hrd
-  rw [f7, hfl, hrd]
-  have : 2 ≤ infoSize (fp p) := by
-    unfold infoSize; rw [info_struct]; simp only [List.length_cons]; omega
+  have hlf : (be32 ((14 + infoSize (fp p) + payload.length - 4) % 4294967296)).length = 4 := by simp
+  have hfl := layout_length (be32 ((14 + infoSize (fp p) + payload.length - 4) % 4294967296)) (fp p) hlf
+  exact ⟨_, w'', _, e, e2, hb2, hfl,
+    decode_layout_unsupported p _ payload cap hlf hd hsup hs (by rw [List.length_append, hfl]; exact hcap)⟩
+
+/-- **encode_rejects_iff.** Encode returns an error exactly when the writer already failed or the header
+    info exceeds MaxHeaderSize — and then it is that error. Nothing else makes it fail: not the protocol id
+    (unchecked), not the payload or total length (the caller's business, after Encode). -/
+theorem encode_rejects_iff (p : EncParam) (w : W) (hd : (fp p).Dom) (h64 : infoSize (fp p) < 2 ^ 64) :
+    ((∃ e, encode p w = .err e) ↔ (w.broken = true ∨ infoSize (fp p) > 65536)) ∧
+    (w.broken = true → encode p w = .err .writer) ∧
+    (w.broken = false → infoSize (fp p) > 65536 → encode p w = .err .size) := by
+  refine ⟨⟨?_, ?_⟩, encode_broken p w, fun hb hbig => (encode_layout p w hb hd h64).1.mpr hbig⟩
+  · rintro ⟨e, he⟩
+    cases hb : w.broken with
+    | true => exact Or.inl rfl
+    | false =>
+      right
+      apply Classical.byContradiction
+      intro hn
+      obtain ⟨w', e', _⟩ := (encode_layout p w hb hd h64).2 (by omega)
+      rw [e'] at he; cases he
+  · rintro (hb | hbig)
+    · exact ⟨_, encode_broken p w hb⟩
+    · cases hb : w.broken with
+      | true => exact ⟨_, encode_broken p w hb⟩
+      | false => exact ⟨_, (encode_layout p w hb hd h64).1.mpr hbig⟩
+
+/-- **The statement, total.** For EVERY parameter set in the Go value ranges and every writer: Encode fails
+    with the writer's error, or fails with the size error (info > 64 KiB), or produces the layout and then —
+    supported protocol id: Decode gives the parameters back with exact framing; unsupported protocol id:
+    Decode refuses the frame. -/
+theorem encode_decode_total (p : EncParam) (w : W) (hd : (fp p).Dom) (h64 : infoSize (fp p) < 2 ^ 64)
+    (payload : Bytes) (cap : Nat) (hcap : 14 + infoSize (fp p) + payload.length ≤ cap) :
+    (w.broken = true ∧ encode p w = .err .writer) ∨
+    (w.broken = false ∧ infoSize (fp p) > 65536 ∧ encode p w = .err .size) ∨
+    (w.broken = false ∧ infoSize (fp p) ≤ 65536 ∧
+      ∃ w' w'' frame, encode p w = .ok (w.n, w') ∧
+        setTotalLen w' w.n (14 + infoSize (fp p) + payload.length - 4) = .ok w'' ∧
+        w''.bytes = w.bytes ++ frame ∧ frame = layout (be32 ((14 + infoSize (fp p) + payload.length - 4) % 4294967296)) (fp p) ∧
+        ((p.proto ∈ supported ∧ ∃ d, decodeBytes (frame ++ payload) cap = (.ok d, frame.length) ∧
+            d.flags = p.flags ∧ d.seq = p.seq ∧ d.proto = p.proto ∧
+            (∀ k, (mk d.intKV).lookup k = p.intKV.lookup k) ∧ (∀ k, (mk d.strKV).lookup k = p.strKV.lookup k) ∧
+            d.headerLen = (frame.length : Int) ∧
+            d.payloadLen = (((14 + infoSize (fp p) + payload.length - 4) % 4294967296 : Nat) : Int) + 4
+                             - (frame.length : Int)) ∨
+         (p.proto ∉ supported ∧ decodeBytes (frame ++ payload) cap = (.err .protocol, frame.length)))) := by
+  cases hb : w.broken with
+  | true => exact Or.inl ⟨rfl, encode_broken p w hb⟩
+  | false =>
+    right
+    by_cases hbig : infoSize (fp p) > 65536
+    · exact Or.inl ⟨rfl, hbig, (encode_layout p w hb hd h64).1.mpr hbig⟩
+    · right
+      have hs : infoSize (fp p) ≤ 65536 := by omega
+      refine ⟨rfl, hs, ?_⟩
+      obtain ⟨_, h2⟩ := encode_layout_lemma p w hb hd h64
+      obtain ⟨L, e, hbytes⟩ := h2 hs
+      obtain ⟨w'', e2, hb2⟩ := setTotalLen_layout p w L (14 + infoSize (fp p) + payload.length - 4) hd hs hbytes
+      have hlf : (be32 ((14 + infoSize (fp p) + payload.length - 4) % 4294967296)).length = 4 := by simp
+      have hfl := layout_length (be32 ((14 + infoSize (fp p) + payload.length - 4) % 4294967296)) (fp p) hlf
+      refine ⟨_, w'', _, e, e2, hb2, rfl, ?_⟩
+      by_cases hsup : p.proto ∈ supported
+      · left
+        obtain ⟨d, hdec, f1, f2, f3, f4, f5, f6, f7⟩ := decode_layout p _ payload cap hlf hd hsup hs
+          (by rw [List.length_append, hfl]; exact hcap)
+        have hrd := rd32_be32 ((14 + infoSize (fp p) + payload.length - 4) % 4294967296)
+          (Nat.mod_lt _ (by decide)) []
+        rw [List.append_nil] at hrd
+        exact ⟨hsup, d, hdec, f1, f2, f3, f4, f5, f6, by rw [f7, hrd]⟩
+      · right
+        exact ⟨hsup, decode_layout_unsupported p _ payload cap hlf hd hsup hs
+          (by rw [List.length_append, hfl]; exact hcap)⟩
+
+/-- **count_fits_uint16_of_size_ok.** The entry counts are written as `uint16(len)`: whenever the size check
+    passes, the number of string entries (token excluded) and of integer entries is below 65536 — each
+    entry takes at least 4 bytes, so 65536 entries (count field wrapping to 0) already need 262144 > 65536
+    bytes and Encode has ended in the size error. The wrap is excluded by the limit, not by hypothesis. -/
+theorem count_fits_uint16_of_size_ok (p : EncParam) (hd : (fp p).Dom) (hs : infoSize (fp p) ≤ 65536) :
+    (plainStr p.strKV).length < 65536 ∧ p.intKV.length < 65536 ∧ p.strKV.length ≤ 65536 ∧
+    4 * (plainStr p.strKV).length + 4 * p.intKV.length ≤ 65536 := by
+  have hnd : (p.strKV.map (·.1)).Nodup := hd.strNodup
+  have hlen : (rawInfo p).length ≤ 65536 := by
+    rw [rawInfo_length p hnd]; unfold infoSize at hs; omega
+  obtain ⟨_, ⟨b2, _⟩, ⟨b4, _⟩⟩ := bounds p hnd hlen
+  have h3 : p.strKV.length ≤ (plainStr p.strKV).length + 1 := by
+    cases hl' : p.strKV.lookup gdprKey with
+    | none => rw [lookup_none_plain _ hl']; omega
+    | some v => have := plain_length_of_mem p.strKV hnd ⟨v, mem_of_lookup _ _ _ hl'⟩; omega
+  refine ⟨b2, b4, by omega, ?_⟩
+  -- each entry occupies at least 4 bytes of the info area
+  have hinfo : (info (fp p)).length ≤ 65536 := by unfold infoSize at hs; omega
+  rw [info_parts] at hinfo
+  simp only [List.length_append] at hinfo
+  have c1 : 4 * (plainStr p.strKV).length ≤ (strPart (fp p).strKV).length := by
+    unfold strPart
+    have := count_le_flatMap encStrKV 4 (by intro x; simp [encStrKV]; omega) (plainStr (fp p).strKV)
+    split
+    · rename_i he; have : plainStr (fp p).strKV = [] := by simpa using he
+      simp only [fp] at this; rw [this]; simp
+    · simp only [List.length_cons, List.length_append, be16_length, fp] at this ⊢; omega
+  have c2 : 4 * p.intKV.length ≤ (intPart (fp p).intKV).length := by
+    unfold intPart
+    have := count_le_flatMap encIntKV 4 (by intro x; simp [encIntKV]; omega) (fp p).intKV
+    split
+    · rename_i he; have : (fp p).intKV = [] := by simpa using he
+      simp only [fp] at this; rw [this]; simp
+    · simp only [List.length_cons, List.length_append, be16_length, fp] at this ⊢; omega
   omega
 
 /-- **decode_encode over a stream.** For every reader that keeps the bufiox.Reader contract (any
@@ -147,9 +291,9 @@ theorem decode_encode_stream {σ : Type} (next : σ → Int → RdRes × σ) (re
     exact ⟨d, e1, e2, f⟩
   · exact Or.inl ⟨e, e1⟩
 
-/-- **order_irrelevant.** Two iteration orders of the same maps: Encode succeeds for both or neither,
-    and the decoded maps answer every lookup alike (both like the parameter maps). -/
-theorem order_irrelevant (p q : EncParam) (hf : p.flags = q.flags ∧ p.seq = q.seq ∧ p.proto = q.proto)
+/-- helper: two iteration orders of the same maps have the same domain facts, the same info size and the
+    same lookups -/
+theorem order_irrelevant_params (p q : EncParam) (hf : p.flags = q.flags ∧ p.seq = q.seq ∧ p.proto = q.proto)
     (hi : p.intKV.Perm q.intKV) (hsm : p.strKV.Perm q.strKV) (hd : (fp p).Dom) :
     (fp q).Dom ∧ infoSize (fp p) = infoSize (fp q) ∧
     (∀ k, p.intKV.lookup k = q.intKV.lookup k) ∧ (∀ k, p.strKV.lookup k = q.strKV.lookup k) := by
@@ -194,6 +338,48 @@ theorem order_irrelevant (p q : EncParam) (hf : p.flags = q.flags ∧ p.seq = q.
     omega
   unfold infoSize
   rw [hlen]
+
+/-- **order_irrelevant.** End to end: for any two iteration orders (permutations) of the same integer and
+    string maps, on any two healthy writers (whatever they hold, whatever fresh memory contains):
+    Encode fails for both (size error) or succeeds for both; in the latter case the two frames have the same
+    length, both decode, and the two decoded parameter sets agree: same flags / sequence id / protocol id,
+    maps with the same answer for every key, same HeaderLen and same PayloadLen. -/
+theorem order_irrelevant (p q : EncParam) (hf : p.flags = q.flags ∧ p.seq = q.seq ∧ p.proto = q.proto)
+    (hi : p.intKV.Perm q.intKV) (hsm : p.strKV.Perm q.strKV) (hd : (fp p).Dom) (hsup : p.proto ∈ supported)
+    (h64 : infoSize (fp p) < 2 ^ 64)
+    (w1 w2 : W) (hb1 : w1.broken = false) (hb2 : w2.broken = false) (payload : Bytes) (cap : Nat)
+    (hcap : 14 + infoSize (fp p) + payload.length ≤ cap) :
+    (encode p w1 = .err .size ∧ encode q w2 = .err .size) ∨
+    (∃ w1' w1'' f1 d1 w2' w2'' f2 d2,
+      encode p w1 = .ok (w1.n, w1') ∧ encode q w2 = .ok (w2.n, w2') ∧
+      setTotalLen w1' w1.n (f1.length + payload.length - 4) = .ok w1'' ∧ w1''.bytes = w1.bytes ++ f1 ∧
+      setTotalLen w2' w2.n (f2.length + payload.length - 4) = .ok w2'' ∧ w2''.bytes = w2.bytes ++ f2 ∧
+      f1.length = f2.length ∧
+      decodeBytes (f1 ++ payload) cap = (.ok d1, f1.length) ∧ decodeBytes (f2 ++ payload) cap = (.ok d2, f2.length) ∧
+      d1.flags = d2.flags ∧ d1.seq = d2.seq ∧ d1.proto = d2.proto ∧
+      (∀ k, (mk d1.intKV).lookup k = (mk d2.intKV).lookup k) ∧
+      (∀ k, (mk d1.strKV).lookup k = (mk d2.strKV).lookup k) ∧
+      d1.headerLen = d2.headerLen ∧ d1.payloadLen = d2.payloadLen) := by
+  obtain ⟨hqd, hsz, hli, hls⟩ := order_irrelevant_params p q hf hi hsm hd
+  by_cases hbig : infoSize (fp p) > 65536
+  · left
+    exact ⟨(encode_layout p w1 hb1 hd h64).1.mpr hbig,
+      (encode_layout q w2 hb2 hqd (by omega)).1.mpr (by omega)⟩
+  · right
+    have hs : infoSize (fp p) ≤ 65536 := by omega
+    obtain ⟨w1', w1'', f1, d1, a1, a2, a3, a4, a5, a6, a7, a8, a9, a10, a11, a12⟩ :=
+      decode_encode_anytotal p w1 hb1 hd hsup hs payload cap hcap
+    obtain ⟨w2', w2'', f2, d2, b1, b2, b3, b4, b5, b6, b7, b8, b9, b10, b11, b12⟩ :=
+      decode_encode_anytotal q w2 hb2 hqd (by rw [← hf.2.2]; exact hsup) (by omega) payload cap (by omega)
+    refine ⟨w1', w1'', f1, d1, w2', w2'', f2, d2, a1, b1, by rw [a4]; exact a2, a3, by rw [b4]; exact b2, b3,
+      by omega, a5, b5, ?_, ?_, ?_, ?_, ?_, ?_, ?_⟩
+    · rw [a6, b6, hf.1]
+    · rw [a7, b7, hf.2.1]
+    · rw [a8, b8, hf.2.2]
+    · intro k; rw [a9, b9, hli]
+    · intro k; rw [a10, b10, hls]
+    · rw [a11, b11, a4, b4, hsz]
+    · rw [a12, b12, a4, b4, hsz]
 
 /-! ### the exported helpers of utils.go: IsStreaming, WriteUint32, WriteString -/
 
